@@ -29,6 +29,8 @@ ASSUME = [
     "a MultiNamePath with SegCount 1 and no prefix may be resolved either as a single segment (upward search) or downward only",
     "which freed slot is reused is the implementation's choice (the monitor checks membership); the LIFO free list is only "
     "the refinement used to generate leg G scripts (a script stops, without verdict, where the real tree picks another slot)",
+    "a parent's child list is observed twice: through the link fields and through the exported enumeration ArgAt/NumArgs; both "
+    "must be the same list",
     "trusted Go: the pool projection (link fields -> 1-based arrays), the script runner and the random driver, which picks "
     "legal operations and lookup targets by reading the real tree; none of them holds an expected result",
 ]
@@ -279,7 +281,7 @@ def account(ctx, leg, path):
                 case_no += 1
                 first = []
                 continue
-            if len(first) < 6 and (k == "find" or "st" not in e or e["st"]["n"] <= 6):
+            if len(first) < 6 and k != "new" and (k != "find" or e["r"] > 0) and ("st" not in e or e["st"]["n"] <= 6):
                 first.append(e)
             if k == "find":
                 nfind += 1
@@ -299,7 +301,8 @@ def account(ctx, leg, path):
 
 
 def validate(ctx, name, path, timeout):
-    acc, nev, mism = ctx.validate_traces("ObjTreeTrace", "ObjTreeTrace", path, ("aml",), name=name, timeout=timeout)
+    acc, nev, mism = ctx.validate_traces("ObjTreeTrace", "ObjTreeTrace", path, ("aml",), name=name, timeout=timeout,
+                                         parallel=8 if ctx.quick else None)
     for m in mism[:3]:
         ev = m["case_events"]
         small = trim_case(ev, m["line_in_case"])
@@ -327,11 +330,12 @@ def run(ctx):
     jobs = [
         lambda: ctx.model_check(d, "MCObjTree", "MCObjTreeEdit" + tier, workers=1, env={"GRAPH": graph}, timeout=1500,
                                 coverage=not q, name="M-edit"),
-        lambda: ctx.model_check(d, "MCObjTree", "MCObjTreeFind" + tier, workers=6 if q else 16, timeout=1500, name="M-find"),
+        lambda: ctx.model_check(d, "MCObjTree", "MCObjTreeFind" + tier, workers=4 if q else 16, timeout=1500, name="M-find"),
         lambda: ctx.model_check(d, "MCObjTree", "MCObjTreeTrees" + tier, workers=1, env={"TREES": trees, "EXPRS": exprsf},
                                 timeout=600, name="emit-trees"),
     ] + [(lambda b=b: ctx.expect_model_violation(d, "MCObjTree", "MCObjTreeBug_" + b, workers=2, timeout=600)) for b in edit_bugs + find_bugs]
-    with concurrent.futures.ThreadPoolExecutor(max_workers=4 if q else 3) as ex:
+    cap = vlib.maxpar() if hasattr(vlib, "maxpar") else vlib.NCPU
+    with concurrent.futures.ThreadPoolExecutor(max_workers=max(1, min(4 if q else 3, cap // 2 if cap < 8 else cap))) as ex:
         res = [f.result() for f in [ex.submit(j) for j in jobs]]
     ctx.cov["states"] -= ctx.cov["legs"]["emit-trees"]["distinct"]          # the emission run only enumerates Init
     ctx.cov["transitions"] -= ctx.cov["legs"]["emit-trees"]["generated"]
@@ -362,7 +366,7 @@ def run(ctx):
     if q:
         rnd = random.Random(ctx.seed)
         big = [t for t in alltrees if len(t["par"]) >= 3]
-        use = rnd.sample(big, min(14, len(big)))
+        use = rnd.sample(big, min(10, len(big)))
     ctx.cov["legs"]["G-find-cases"] = {"trees_enumerated": len(alltrees), "trees_replayed": len(use), "expressions": len(exprs)}
     with open(gs, "w") as f:
         for s in scripts:
@@ -376,7 +380,7 @@ def run(ctx):
     # both harness entry points in one `go test` run (one build)
     run_go(ctx, "TestVerifC13(Scripts|Random)$",
            {"C13_SCRIPTS": gs, "C13_TRACE": trg, "C13_TRACE_T": trt,
-            "C13_NTREES": 10 if q else 96, "C13_NLOOKUPS": 1200 if q else 10000, "C13_MAXOBJ": 300}, 1200)
+            "C13_NTREES": 8 if q else 96, "C13_NLOOKUPS": 1000 if q else 10000, "C13_MAXOBJ": 300}, 1200)
 
     # ---- leg V
     account(ctx, "G", trg)
